@@ -46,7 +46,7 @@ for kind in mutants harmless; do
     fi
     run_one $kind "$n" &
     # limited parallelism
-    while [ $(jobs -r | wc -l) -ge 6 ]; do sleep 0.2; done
+    while [ $(jobs -r | wc -l) -ge 3 ]; do sleep 0.2; done
   done
 done
 wait
